@@ -734,6 +734,7 @@ func c13FKCheck(e *Env, viol func(kind, sig, what, check string, rep any), mu *s
 		"CREATE TABLE a (id integer PRIMARY KEY, r integer REFERENCES p (id))",
 		"CREATE TABLE b (id integer PRIMARY KEY, r integer REFERENCES p (id))",
 		"CREATE TABLE c (id integer PRIMARY KEY, x integer REFERENCES q (id), r integer REFERENCES p (id))",
+		"CREATE TABLE w (k text PRIMARY KEY, r integer REFERENCES p (id)) WITHOUT ROWID",
 		"INSERT INTO p VALUES (1)",
 	}
 	type fc struct {
@@ -755,6 +756,10 @@ func c13FKCheck(e *Env, viol func(kind, sig, what, check string, rep any), mu *s
 		{"the file repairs a known violation (parent inserted) and adds a violation elsewhere", []string{"INSERT INTO a VALUES (1, 99)"}, []string{"INSERT INTO p VALUES (99)", "INSERT INTO b VALUES (5, 98)"}, true},
 		{"the file deletes two known violations and adds one", []string{"INSERT INTO a VALUES (1, 99)", "INSERT INTO a VALUES (2, 98)"}, []string{"DELETE FROM a", "INSERT INTO c VALUES (7, NULL, 97)"}, true},
 		{"the file deletes the row of a known violation and adds none", []string{"INSERT INTO a VALUES (1, 99)"}, []string{"DELETE FROM a WHERE id = 1", "INSERT INTO b VALUES (5, 1)"}, false},
+		// a child table WITHOUT ROWID: the engine reports its violations with a NULL rowid
+		{"no violation known, the file adds one to a table WITHOUT ROWID", nil, []string{"INSERT INTO w VALUES ('x', 99)"}, true},
+		{"a violation in a table WITHOUT ROWID, the file adds another row to it", []string{"INSERT INTO w VALUES ('x', 99)"}, []string{"INSERT INTO w VALUES ('y', 98)"}, true},
+		{"a violation in a table WITHOUT ROWID, the file adds another row with the same parent", []string{"INSERT INTO w VALUES ('x', 99)"}, []string{"INSERT INTO b VALUES (1, 1)", "INSERT INTO w VALUES ('y', 99)"}, true},
 	}
 	for ci, c := range cases {
 		for _, mode := range []string{"file", "all"} {
@@ -777,7 +782,7 @@ func c13FKCheck(e *Env, viol func(kind, sig, what, check string, rep any), mu *s
 			mu.Unlock()
 			desc := fmt.Sprintf("--tx-mode %s, _fk=1, %s (known: %v; file: %v)", mode, c.name, c.known, c.stmts)
 			rowsOf := func(d dbDump) string {
-				return fmt.Sprintf("a=%v b=%v c=%v", d.Rows["a"], d.Rows["b"], d.Rows["c"])
+				return fmt.Sprintf("a=%v b=%v c=%v w=%v", d.Rows["a"], d.Rows["b"], d.Rows["c"], d.Rows["w"])
 			}
 			switch {
 			case c.newViol && o.Code == 0:
